@@ -26,8 +26,8 @@ META = {
     ),
     "assumptions": ["'handed its completion record' = the call of ExecutionState.create_checkpoint with the CONTEXT SUCCEED/FAIL update"],
     "budget": {
-        "quick": {"shards": 4, "random_cases": 220, "min_nontrivial": 40},
-        "thorough": {"shards": 16, "random_cases": 6000, "min_nontrivial": 1800},
+        "quick": {"shards": 4, "random_cases": 200, "sweep_limit": 700, "min_nontrivial": 40},
+        "thorough": {"shards": 16, "random_cases": 6000, "sweep_limit": 5000, "min_nontrivial": 1800},
     },
 }
 
@@ -133,4 +133,31 @@ def classes(run, case):
     return out
 
 
-install(globals(), props=("C10",), cases=cases, nontrivial=nontrivial, classes=classes)
+def _sweep_stage(ctx):
+    """One long preemption at every executed source line of state.py / executor.py for early-completing parallels whose
+    survivor is about to hand over its next record: the window between 'validated' and 'enqueued' included."""
+    from .. import wfcheck as WC
+    from .c03 import _S
+
+    bases = [
+        ("first_successful: [fast | step, step]", {"op": "parallel", "branches": [[_S(1, sleep=0.2)], [_S(2, sleep=0.1), _S(3, sleep=0.3)]],
+                                                   "cfg": {"completion": "first_successful", "explicit": True}}, ["state"]),
+        ("min 1: [fast | child{step}, wait]", {"op": "parallel", "branches": [[_S(1, sleep=0.2)], [{"op": "child", "body": [_S(2, sleep=0.2)]}, {"op": "wait", "secs": 1}]],
+                                               "cfg": {"completion": {"min": 1, "tol": 3, "pct": None}, "explicit": True}}, ["state", "executor"]),
+        ("fail-fast: [failing | step(at-most-once), step]", {"op": "parallel", "branches": [[{"op": "step", "beh": {"kind": "always_fail", "err": "UserError", "msg": "d"}, "sem": "least",
+                                                                                               "retry": {"kind": "none"}, "sleep": 0.2}], [_S(2, sem="most", sleep=0.2), _S(3)]],
+                                                             "cfg": {"completion": None, "explicit": True}}, ["state"]),
+        ("nested: [fast | parallel{step|step}]", {"op": "parallel", "branches": [[_S(1, sleep=0.3)], [{"op": "parallel", "branches": [[_S(2, sleep=0.3)], [_S(3, sleep=0.1), _S(4, sleep=0.4)]],
+                                                                                                        "cfg": {"completion": {"min": None, "tol": 2, "pct": None}}}]],
+                                                  "cfg": {"completion": "first_successful", "explicit": True}}, ["state", "executor"]),
+    ]
+    for i, (label, stmt, line) in enumerate(bases):
+        if ctx.nshards > 1 and i % ctx.nshards != ctx.shard % ctx.nshards:
+            continue
+        base = {"prog": {"body": [{"op": "try", "body": stmt, "catch": ["Exception"], "handler": []}, _S("after", sleep=1.0)]}, "backend": {"response": "delta"},
+                "plan": {"crashes": []}, "line": line}
+        WC.line_preempt_sweep(ctx, base, PROPS, nontrivial=nontrivial, classes=lambda r, c: ["one-long-preemption-at-a-line"] + classes(r, c),
+                              limit=ctx.budget.get("sweep_limit", 700), label=f"one long preemption per line of {'/'.join(line)}: {label}")
+
+
+install(globals(), props=("C10",), cases=cases, nontrivial=nontrivial, classes=classes, stages=(_sweep_stage,))
